@@ -246,7 +246,13 @@ impl From<&str> for Val {
             }
             _ => {}
         };
-        if let Ok(num) = s.parse::<f64>() {
+        // Rust's float parser also accepts "nan", "inf" and "infinity".
+        let is_number = s
+            .chars()
+            .all(|c| c.is_ascii_digit() || matches!(c, '+' | '-' | '.' | 'e' | 'E'));
+        if !is_number {
+            Val::String(string.into())
+        } else if let Ok(num) = s.parse::<f64>() {
             Val::Double(num)
         } else {
             Val::String(string.into())
